@@ -133,6 +133,25 @@ def completion(prog, rep):
     rule = "R3-duplicate-and-completion"
     body = prog.one(R + "snap")
     ir = IR(body)
+    # a transfer that (re)starts -- `self.current = Some(CurrentDelta { .. })` -- starts from empty part bookkeeping: every path to
+    # that store passes init_delta() (or clears parts / receive_buf itself); otherwise the parts of a superseded, unfinished
+    # transfer are mixed into the new one
+    inits = frozenset(bi for bi, t in body.calls() if (t.get("callee") or "").endswith("DeltaReceiver::init_delta"))
+    starts = []
+    for bi in sorted(body.live):
+        for si, st in enumerate(body.blocks[bi]["st"]):
+            if st["k"] == "assign" and st["p"].get("pr"):
+                pe = ir.place(st["p"], (bi, si))
+                if ir.access_path(pe)[1] == ("current",):
+                    v = ir.rvalue(st["r"], (bi, si))
+                    if v[0] == "agg" and v[3] == "Some":
+                        starts.append((bi, st.get("ln")))
+    rep.floor(rule, len(starts), 1, "self.current = Some(..) in snap")
+    for i, (bi, ln) in enumerate(starts):
+        ok = bool(inits) and bi not in body.reachable_from(0, removed_blocks=inits - {bi})
+        rep.ob(rule, "snap | new transfer#%d starts from init_delta" % i, ok,
+               "every path to `current = Some(..)` passes init_delta()" if ok else
+               "a transfer can (re)start without init_delta(): parts of the superseded transfer stay in the buffers", body.loc(ln))
     ins = [(bi, t) for bi, t in body.calls() if (t.get("callee") or "").endswith("VecMap::insert")]
     rep.floor(rule, len(ins), 1, "parts.insert")
     for i, (bi, t) in enumerate(ins):
